@@ -57,4 +57,7 @@ MUTANTS = [
     dict(name='generic-only-for-internal', file='pjrpc/server/dispatcher.py', nth=0,
          find='it.chain(self._error_handlers.get(None, []), self._error_handlers.get(error.code, []))',
          replace='it.chain(self._error_handlers.get(error.code, []))', expect='EH-FOLD'),
+    dict(name='middleware-response-for-notification-dropped', file='pjrpc/server/dispatcher.py', nth=0,
+         find='responses = [resp for resp in results if resp]', replace='responses = [resp for req, resp in zip(request, results) if resp and not req.is_notification]',
+         expect='FILTER-UNSET'),
 ]
